@@ -8,6 +8,8 @@ package main
 //	        (syntax/types.go nontermPhrase: Tarjan SCC detection, "all fields become lists")
 //	groups  a node with ordered named fields forming 2..3 separate groups of overlapping node types, the
 //	        last field of a group optional or a list at random (fixConflictingFields: FetchAfter chains)
+//	sharednt a helper nonterminal without arrow whose named field merges m types, used from several typed
+//	        parents that each add their own alternative to that field (mergeFields vs. the phrase cache)
 //	shared  several reported terminals sharing ONE node name with other %inject lines in between, or a
 //	        reported terminal named like a node an arrow produces, used inside typed rules
 //	        (resolveTypes: token -> range type binding)
@@ -46,9 +48,9 @@ func c21FamHeader(name string, comment bool, nTerms int, injects []string, inter
 // c21FamCycle: `Root -> Root : [pre] C<entry> [post] ; C0 : body0 C1 ; … ; C<k-1> : body C0 | body ;`
 // no arrow encloses a cycle member; every member starts with its own terminal (LALR(1) by construction).
 func c21FamCycle(r *rand.Rand, name string, comment bool) string {
-	k := 2 + r.Intn(3)
-	if r.Intn(4) != 0 && k < 3 {
-		k = 3 + r.Intn(2)
+	k := 3 + r.Intn(2)
+	if r.Intn(6) == 0 {
+		k = 2
 	}
 	entry := r.Intn(k)
 	nTypes := 1 + r.Intn(3) // node type names are shared between members at random
@@ -57,7 +59,7 @@ func c21FamCycle(r *rand.Rand, name string, comment bool) string {
 		t := fmt.Sprintf("'%c'", 'a'+i)
 		must := i == 0 // member 0 always consumes a token: the cycle makes progress
 		switch x := r.Intn(10); {
-		case x < 5 || (i == entry && x < 8):
+		case x < 5 || (i == entry && x < 9):
 			body[i] = fmt.Sprintf("(%s -> K%d)", t, 1+r.Intn(nTypes))
 			if r.Intn(5) == 0 {
 				body[i] = fmt.Sprintf("f%d=%s", 1+r.Intn(2), body[i])
@@ -106,17 +108,40 @@ func c21FamGroups(r *rand.Rand, name string, comment bool) string {
 	fn := 0
 	for g := 0; g < ng; g++ {
 		nt := fmt.Sprintf("B%d", g)
-		if r.Intn(3) == 0 {
+		kind := r.Intn(3)
+		var pool []string // union kind: node types of the group with their terminals
+		var poolTerm []string
+		switch kind {
+		case 0:
 			cat := fmt.Sprintf("Cat%d", g)
 			interfaces = append(interfaces, cat)
 			rules = append(rules, fmt.Sprintf("%s -> %s :\n    %s -> %sX\n  | %s -> %sY\n;\n", nt, cat, nextTerm(), nt, nextTerm(), nt))
-		} else {
+		case 1:
 			rules = append(rules, fmt.Sprintf("%s -> %s :\n    %s\n;\n", nt, nt, nextTerm()))
+		default:
+			// category-less UNION selectors: every field of the group goes through its own helper
+			// nonterminal `U: gN=(t -> X) | gN=(u -> Y)` over a subset of the group's node types
+			for j := 0; j < 3; j++ {
+				pool = append(pool, fmt.Sprintf("%s%c", nt, 'X'+j))
+				poolTerm = append(poolTerm, nextTerm())
+			}
 		}
 		size := 2 + r.Intn(2)
 		for i := 0; i < size; i++ {
 			fn++
 			f := fmt.Sprintf("g%d=%s", fn, nt)
+			if kind == 2 {
+				// subsets {X,Y}, {Y,Z}, {X,Z}, {X,Y,Z}, {Y}: consecutive fields overlap in part only
+				subsets := [][]int{{0, 1}, {1, 2}, {0, 2}, {0, 1, 2}, {1}}
+				sub := subsets[(i+r.Intn(2))%len(subsets)]
+				u := fmt.Sprintf("U%d", fn)
+				var alts []string
+				for _, j := range sub {
+					alts = append(alts, fmt.Sprintf("g%d=(%s -> %s)", fn, poolTerm[j], pool[j]))
+				}
+				rules = append(rules, fmt.Sprintf("%s :\n    %s\n;\n", u, strings.Join(alts, "\n  | ")))
+				f = u
+			}
 			if i == size-1 {
 				switch r.Intn(5) {
 				case 0, 1:
@@ -220,13 +245,75 @@ func c21FamShared(r *rand.Rand, name string, comment bool) string {
 	return sb.String()
 }
 
-// c21Family renders family number n%3.
+// c21FamSharedNT: a helper nonterminal H WITHOUT an arrow whose named field x already merges m node types
+// (`H : x=(t1 -> A1) | … | x=(tm -> Am)`), used from the rules of 2..3 typed parents, each of which adds its
+// own further alternative to the same field (`'p' (H | x=(d -> D)) -> P`). The phrase of H is cached and
+// merged into every parent (mergeFields / mergePhrases must not alias it). m varies (1..7: Go's append leaves
+// spare capacity for m = 3, 5, 6, 7), as do the order of the alternatives, of the declarations and the
+// alphabetical order of the parents' node names. `Root : Par | Par Par` keeps the language small enough for
+// every alternative of every parent to be among the enumerated sentences.
+func c21FamSharedNT(r *rand.Rand, name string, comment bool) string {
+	m := []int{3, 5, 3, 6, 7, 3, 5, 1, 2, 4}[r.Intn(10)]
+	np := 2 + r.Intn(2)
+	term := 0
+	nextTerm := func() string { term++; return fmt.Sprintf("'%c'", 'a'+term-1) }
+	fname := fmt.Sprintf("f%d", 1+r.Intn(2))
+	var halts []string
+	for i := 0; i < m; i++ {
+		halts = append(halts, fmt.Sprintf("%s=(%s -> A%d)", fname, nextTerm(), i+1))
+	}
+	r.Shuffle(len(halts), func(i, j int) { halts[i], halts[j] = halts[j], halts[i] })
+	hrule := fmt.Sprintf("H :\n    %s\n;\n", strings.Join(halts, "\n  | "))
+	letters := r.Perm(6)
+	var palts []string
+	extra := ""
+	for p := 0; p < np; p++ {
+		key := nextTerm()
+		pname := fmt.Sprintf("P%c", 'a'+letters[p])
+		own := ""
+		if r.Intn(10) != 0 {
+			own = fmt.Sprintf("%s=(%s -> D%d)", fname, nextTerm(), p+1)
+		}
+		var body string
+		switch {
+		case own == "":
+			body = "H"
+		case r.Intn(2) == 0:
+			body = fmt.Sprintf("(H | %s)", own)
+		default:
+			body = fmt.Sprintf("(%s | H)", own)
+		}
+		if r.Intn(4) == 0 {
+			// go through a transparent nonterminal
+			extra += fmt.Sprintf("W%d :\n    %s\n;\n", p, strings.TrimSuffix(strings.TrimPrefix(body, "("), ")"))
+			body = fmt.Sprintf("W%d", p)
+		}
+		palts = append(palts, fmt.Sprintf("%s %s -> %s", key, body, pname))
+	}
+	prule := fmt.Sprintf("Par :\n    %s\n;\n", strings.Join(palts, "\n  | "))
+	var sb strings.Builder
+	sb.WriteString(c21FamHeader(name, comment, term, nil, nil, "Root"))
+	sb.WriteString("Root -> Root :\n    Par\n  | Par Par\n;\n")
+	rules := []string{prule, hrule}
+	if r.Intn(2) == 0 {
+		rules = []string{hrule, prule}
+	}
+	for _, rl := range rules {
+		sb.WriteString(rl)
+	}
+	sb.WriteString(extra)
+	return sb.String()
+}
+
+// c21Family renders family number n%4.
 func c21Family(r *rand.Rand, n int, name string, comment bool) (string, string) {
-	switch n % 3 {
+	switch n % 4 {
 	case 0:
 		return "cycle", c21FamCycle(r, name, comment)
 	case 1:
 		return "groups", c21FamGroups(r, name, comment)
+	case 2:
+		return "sharednt", c21FamSharedNT(r, name, comment)
 	default:
 		return "shared", c21FamShared(r, name, comment)
 	}
